@@ -15,6 +15,10 @@
 //!       every CASE of MC_SubsetCff (name-keyed CFF: glyph names in and out of ISOAdobe order, accented glyphs = the seac
 //!       form of endchar, every request list; the representation of the source rotates: hdrSize, offSize, Top DICT order,
 //!       charset / Encoding forms, block order, Private DICT variants): see c07_subset/cffcase.rs.
+//!   c07_subset replay-cid <cases.ndjson> <mismatches.ndjson>
+//!       every CASE of MC_SubsetCid (CID-keyed and name-keyed CFF with subroutines: Font DICT per glyph, call pattern per
+//!       glyph - nested, global calling local -, subroutine counts on both sides of the bias boundaries, every request
+//!       list; representation incl. FDSelect format rotating): see c07_subset/cidcase.rs.
 //!   c07_subset record <seed> <quick|thorough> <trace.ndjson>
 //!       repository fonts (glyf, CFF name-keyed / CID-keyed / with subroutines, CFF2; fonts and composites
 //!       selected by what their component records carry) and the synthesized CFF-family fonts of
@@ -77,6 +81,8 @@ mod cffw;
 mod cffcase;
 #[path = "c07_subset/cffrep.rs"]
 mod cffrep;
+#[path = "c07_subset/cidcase.rs"]
+mod cidcase;
 #[path = "c07_subset/ind.rs"]
 mod ind;
 #[path = "c07_subset/rep.rs"]
@@ -1336,6 +1342,7 @@ fn main() {
     match args.get(1).map(|s| s.as_str()) {
         Some("replay") => replay(&args[2], &args[3], &args[4], args[5].parse().expect("every")),
         Some("replay-cff") => cffcase::replay_cff(&args[2], &args[3]),
+        Some("replay-cid") => cidcase::replay_cid(&args[2], &args[3]),
         Some("record") => record(args[2].parse().expect("seed"), &args[3], &args[4]),
         Some("probe") => probe(),
         Some("sizes") => {
